@@ -17,6 +17,7 @@ import time
 
 VERIF = os.path.dirname(os.path.dirname(os.path.abspath(__file__)))
 PROPS = ["C%02d" % i for i in range(1, 21)]
+RULESET = int(os.environ.get("MUT_RULESET", "1"))
 
 RULES = [
     (r"<=", "<"), (r">=", ">"), (r"(?<![<>=!\-])<(?![<=])", "<="), (r"(?<![<>=!\-])>(?![>=])", ">="),
@@ -29,6 +30,27 @@ RULES = [
     (r"\.starts_with\(", ".ends_with("), (r"\.ends_with\(", ".starts_with("),
     (r"\.unwrap_or_default\(\)", ".unwrap_or(1)"),
     (r"\bu16::MAX\b", "(u16::MAX - 1)"), (r"\bto_be_bytes\b", "to_le_bytes"), (r"\bfrom_be_bytes\b", "from_le_bytes"),
+]
+# second rule set: role swaps, casts, variants, masks
+RULES2 = [
+    (r"\bsource_address\b", "destination_address"), (r"\bdestination_address\b", "source_address"),
+    (r"\bsource_port\b", "destination_port"), (r"\bdestination_port\b", "source_port"),
+    (r"\bsource\b", "destination"), (r"\bdestination\b", "source"),
+    (r"\bas u16\b", "as u8 as u16"), (r"\bas usize\b", "as u8 as usize"),
+    (r"\bLEFT_MASK\b", "RIGHT_MASK"), (r"\bRIGHT_MASK\b", "LEFT_MASK"),
+    (r"\bMissingNewLine\b", "InvalidSuffix"), (r"\bInvalidSuffix\b", "MissingNewLine"),
+    (r"\bPartial\b", "InvalidProtocol"), (r"\bInvalidPrefix\b", "Partial"),
+    (r"\bMissingProtocol\b", "InvalidProtocol"), (r"\bInvalidProtocol\b", "MissingProtocol"),
+    (r"\bMissingSourceAddress\b", "MissingDestinationAddress"), (r"\bMissingSourcePort\b", "MissingDestinationPort"),
+    (r"\bInvalidSourceAddress\b", "InvalidDestinationAddress"), (r"\bInvalidDestinationAddress\b", "InvalidSourceAddress"),
+    (r"\bInvalidSourcePort\b", "InvalidDestinationPort"), (r"\bInvalidDestinationPort\b", "InvalidSourcePort"),
+    (r"\bIncomplete\(", "Partial(0, "), (r"\bHeaderTooLong\b", "InvalidSuffix"),
+    (r"\bTCP4\b", "TCP6"), (r"\bTCP6\b", "TCP4"), (r"\bIPv4\b", "IPv6"),
+    (r"\bStream\b", "Datagram"), (r"\bLocal\b", "Proxy"), (r"\bUnspecified\b", "IPv4"),
+    (r"\.next\(\)", ".peek().copied()"), (r"\bwrite_all\b", "write"), (r"\.or\(absent\)", ""),
+    (r"\bbytes\[(\d+)\], bytes\[(\d+)\]", "bytes[\\2], bytes[\\1]"),
+    (r"\bself\.offset \+= tlv_length;", "self.offset += tlv_length - 0 * tlv_length + 0;"),
+    (r"\?;$", ".ok();"),
 ]
 INT = re.compile(r"(?<![\w.])(0x[0-9A-Fa-f]+|\d+)(?![\w.]|\s*\])")
 
@@ -52,13 +74,16 @@ def candidate_sites(path):
             continue
         if "#[error" in code or "write!(" in code and '"' in code:
             continue
-        for pat, rep in RULES:
+        for pat, rep in (RULES if RULESET == 1 else RULES2):
             for m in re.finditer(pat, code):
+                if RULESET == 2:
+                    out.append((i, m.start(), m.end(), m.expand(rep) if "\\" in rep else rep))
+                    continue
                 # skip generics / lifetimes / arrows / shifts
                 if pat.startswith("(?<![<>=") and (re.search(r"(impl|fn|struct|enum|Result|Option|Vec|Into|From|Iterator|Cow|&'|::<|->)", code) and "if " not in code and "while " not in code and "=>" not in code or "->" in code[max(0, m.start() - 1):m.end() + 1]):
                     continue
                 out.append((i, m.start(), m.end(), rep))
-        if '"' not in code and "'" not in code:
+        if RULESET == 1 and '"' not in code and "'" not in code:
             for m in INT.finditer(code):
                 tok = m.group(1)
                 v = int(tok, 16) if tok.startswith("0x") else int(tok)
